@@ -33,7 +33,7 @@ func c14Scenarios(cfg runCfg) []Scenario {
 	for i := 0; i < n; i++ {
 		if cfg.mine(i) {
 			h := mix(cfg.seed, 1414, uint64(i))
-			fam := []string{"mixed", "context-first", "late-cleanup", "mixed", "context-poll", "overlap-exit"}[h%6]
+			fam := []string{"mixed", "context-first", "late-cleanup", "mixed", "context-poll", "overlap-exit", "late-first-context"}[h%7]
 			out = append(out, Scenario{Family: fam, Seed: mix(cfg.seed, 14, uint64(i)), N: []int{2, 4, 8, 16, 32}[(h>>8)%5]})
 		}
 	}
@@ -105,6 +105,7 @@ type c14case struct {
 	ranTwice        atomic.Int64
 	failingOps      int
 	lateFailing     atomic.Int64 // failures signalled by goroutines while the case's cleanup functions were running
+	lateCtxs        []context.Context // contexts obtained by goroutines whose FIRST Context() call came as the case ended
 	liveDuring      bool
 	lateCleanup     bool
 	liveAfterCancel atomic.Int64
@@ -112,6 +113,7 @@ type c14case struct {
 }
 
 var c14LogFirst bool
+var c14OnCustomT bool // the scenario's script runs on the T of a Custom generator function
 
 var c14Ops = []string{"Helper", "Name", "Log", "Logf", "Failed", "Context", "Cleanup", "Failed", "Context", "Cleanup", "Error", "Errorf", "Fail"}
 
@@ -180,11 +182,40 @@ func c14Prop(sc Scenario, cases *[]*c14case) func(t *rapid.T) {
 				}()
 			}
 		}
+		if sc.Family == "late-first-context" {
+			// nobody asks for the context while the property runs; G goroutines ask for it for the first time at the very
+			// moment the test case ends (by returning, or by SkipNow): whatever they are handed must be cancelled by the
+			// time the cleanup functions have run
+			cs.lateCleanup = true
+			gate := make(chan struct{})
+			t.Cleanup(func() { lateWG.Wait() })
+			for g := 0; g < G; g++ {
+				lateWG.Add(1)
+				go func() {
+					defer lateWG.Done()
+					<-gate
+					var seen []context.Context
+					for i := 0; i < 3; i++ {
+						seen = append(seen, t.Context())
+					}
+					cs.pollMu.Lock()
+					cs.lateCtxs = append(cs.lateCtxs, seen...)
+					cs.pollMu.Unlock()
+				}()
+			}
+			register()
+			defer close(gate) // the last thing the property does, however it ends
+			if mix(u, 0xe4d)%2 == 0 && !c14OnCustomT {
+				t.SkipNow() // (a Custom generator function that skips is called again: one case per call is kept there)
+			}
+			return
+		}
 		if sc.Family == "overlap-exit" {
 			// goroutines that keep registering cleanups, failing-state reads and context calls while the property
 			// (a short state machine) steps and returns; they are stopped and awaited by the cleanup registered first
 			cs.lateCleanup = true
 			ctx := t.Context()
+			failSome := mix(u, 0xfa11)%4 == 0
 			t.Cleanup(func() { lateWG.Wait() })
 			for g := 0; g < G; g++ {
 				lateWG.Add(1)
@@ -195,6 +226,11 @@ func c14Prop(sc Scenario, cases *[]*c14case) func(t *rapid.T) {
 					for i := 0; ctx.Err() == nil; i++ {
 						register()
 						_ = t.Failed()
+						if failSome && i%40 == 0 {
+							// workers that keep signalling failures while the property returns and rapid reads the failure state
+							cs.lateFailing.Add(1)
+							t.Errorf("a worker failed")
+						}
 						if i%64 == 0 {
 							time.Sleep(time.Microsecond)
 						}
@@ -317,6 +353,8 @@ func c14Run(t *testing.T, sc Scenario, res *Result) {
 		inner := prop
 		g := rapid.Custom(func(it *rapid.T) int { inner(it); return 0 })
 		prop = func(t *rapid.T) { g.Draw(t, "custom") }
+		c14OnCustomT = true
+		defer func() { c14OnCustomT = false }()
 		res.inc("scenarios_on_the_T_of_a_Custom_function")
 	}
 	type outcome struct {
@@ -353,7 +391,13 @@ func c14Run(t *testing.T, sc Scenario, res *Result) {
 		if anyFail != tb.Failed() {
 			res.violate(sc, "c14/verdict", fmt.Sprintf("a goroutine signalled a failure in some case: %v, but Check failed: %v (%s)", anyFail, tb.Failed(), clip(rp.Raw, 200)), map[string]any{"tb": tb.brief()})
 		}
-		if rp.Kind == "flaky" {
+		timingDependent := false
+		for _, cs := range cases {
+			if sc.Family == "overlap-exit" && cs.lateFailing.Load() > 0 {
+				timingDependent = true // WHERE rapid notices the workers' failures depends on the schedule: not a deterministic property
+			}
+		}
+		if rp.Kind == "flaky" && !timingDependent {
 			res.violate(sc, "c14/flaky", "deterministic concurrent property reported as flaky: "+clip(rp.Raw, 300), nil)
 		}
 	} else {
@@ -405,6 +449,13 @@ func c14Run(t *testing.T, sc Scenario, res *Result) {
 		if len(ids) > 0 {
 			res.inc("cases_with_context")
 		}
+		for _, c := range cs.lateCtxs {
+			if c.Err() == nil {
+				res.violate(sc, "c14/late-context-live", fmt.Sprintf("case %d (%s, %d goroutines): a context handed to a goroutine that asked for it as the test case ended is still live after the case and its cleanup functions are over", i, sc.Family, sc.N), nil)
+				break
+			}
+		}
+		res.count("contexts_first_requested_as_the_case_ended", int64(len(cs.lateCtxs)))
 		if n := cs.liveAfterCancel.Load(); n > 0 {
 			res.violate(sc, "c14/ctx-resurrected", fmt.Sprintf("case %d (%s, %d goroutines): after the case's context had been cancelled, Context() handed out a live context %d times", i, sc.Family, sc.N, n), nil)
 		}
@@ -426,6 +477,10 @@ func c14Run(t *testing.T, sc Scenario, res *Result) {
 				hist = append(hist, porcupine.Operation{ClientId: o.G, Input: c14in{o.Op}, Call: o.Call, Output: c14out{o.Failed, o.Ctx}, Return: o.Return})
 			}
 			sig = append(sig, fmt.Sprintf("%d%s", o.G, o.Op[:2]))
+		}
+		if cs.lateFailing.Load() > 0 && sc.Family == "overlap-exit" {
+			hist = nil // the failing calls of the overlapping workers are not part of the recorded history
+			res.inc("cases_with_workers_failing_across_the_exit")
 		}
 		if len(hist) > 0 {
 			verdict, _ := porcupine.CheckOperationsVerbose(c14Model, hist, 3*time.Second)
